@@ -219,8 +219,12 @@ pub fn property() -> Property {
         "template-fn",
         (20_000, 400_000),
         |_| {
-            (str_case_strategy(), prop_oneof![2 => Just(None), 1 => (0u8..4).prop_map(Some)])
-                .prop_map(|(mut case, preset)| {
+            (str_case_strategy(), prop_oneof![2 => Just(None), 1 => (0u8..4).prop_map(Some)], proptest::option::weighted(0.2, "[1-9][0-9]{0,17}"))
+                .prop_map(|(mut case, preset, number)| {
+                    // a fifth of the cases are plain numbers, which can also travel as a JSON number
+                    if let Some(n) = number {
+                        case.input = n;
+                    }
                     // value travels inside a Tera string literal between sentinels
                     case.input = case.input.chars().filter(|c| !matches!(c, '"' | '\\' | '\n' | '\r')).collect();
                     if matches!(case.sep, Some(' ')) {
@@ -260,6 +264,27 @@ pub fn property() -> Property {
                     Err(e) => Err(format!("template error: {e}")),
                 }
             };
+            // the same digits as a number (a numeric literal here; numeric variables take the same
+            // path) must give what the text gives
+            let numeric = !c.input.is_empty() && c.input.len() <= 18 && c.input.bytes().all(|b| b.is_ascii_digit()) && (c.input == "0" || !c.input.starts_with('0'));
+            if numeric && t.preset.is_none() {
+                let mut a = vec![format!("lowercase={}", c.lowercase), format!("keep_zeros={}", c.keep_zeros)];
+                if let Some(sp) = c.sep {
+                    a.push(format!("separator=\"{sp}\""));
+                }
+                if let Some(m) = c.max_length {
+                    a.push(format!("max_length={m}"));
+                }
+                let tpl = format!("<<{{{{ sanitize(value={}, {}) }}}}>>", c.input, a.join(", "));
+                let as_number = match no_panic(|| Template::<String>::new(tpl.clone()).render(None)) {
+                    Ok(Ok(Some(x))) => x.strip_prefix("<<").and_then(|x| x.strip_suffix(">>")).map(String::from),
+                    Ok(_) => None,
+                    Err(p) => return fail(format!("panic rendering {tpl:?}: {p}")),
+                };
+                let as_text = render(&c.input, None).ok();
+                cx.label("numeric-value");
+                ensure!(as_number == as_text, "sanitize(value={}, ...) with the number gives {as_number:?}, with the same digits as text {as_text:?} ({tpl})", c.input);
+            }
             match t.preset {
                 None => check_str(c, &|s| render(s, None), cx),
                 Some(p) => {
